@@ -307,10 +307,11 @@ class Result:
 
 
 class Evaluator:
-    def __init__(self, facts, inline=True, max_depth=5, no_inline=(), inline_only=None, assume=()):
+    def __init__(self, facts, inline=True, max_depth=5, no_inline=(), inline_only=None, assume=(), upvar_values=()):
         self.facts = facts
         # specialisation: atoms replaced by given values whenever they are read (e.g. opts.unify := 1)
         self.assume = dict(assume)
+        self.upvar_values = dict(upvar_values)      # captured variable name -> the value the enclosing function gave it (engine.Ctx.eval fills it in)
         self.inline = inline
         self.max_depth = max_depth
         self.no_inline = [re.compile(x) for x in no_inline]
@@ -334,6 +335,7 @@ class Evaluator:
             k = fi[0]["i"]
             by_ref = pr and pr[-1] == "deref" and pr.index(fi[0]) < len(pr) - 1
             atom = ("upvar", upvar_name(body, k, u["name"]))
+            atom = self.upvar_values.get(atom[1], atom)
             ups[k] = ("ref", ("tmp", atom)) if by_ref else atom
             n = max(n, k + 1)
         env = ("closure", body.path, tuple(ups.get(i, ("upvar", "#%d" % i)) for i in range(n)))
@@ -950,6 +952,17 @@ class Evaluator:
                     self._log(frame, bi, si, kind="agg", adt=kd["adt"], value=val)
             elif isinstance(kd, dict) and "closure" in kd:
                 val = ("closure", kd["closure"], tuple(ops))
+                # what the captured places hold now (by-reference captures are references to locals whose frame state changes later)
+                if not hasattr(self, "closure_caps"):
+                    self.closure_caps = {}
+                snap = []
+                for o_ in ops:
+                    v_ = o_
+                    for _ in range(3):
+                        if tag(v_) == "ref":
+                            v_ = self._deref_val(v_)
+                    snap.append(v_)
+                self.closure_caps.setdefault(kd["closure"], tuple(snap))
             else:
                 val = ("agg", repr(kd), tuple(ops))
         elif k == "discr":
@@ -1716,6 +1729,9 @@ class Evaluator:
         if len(outv) == 1:
             (n, p), = outv.items()
             return ("variant", adt, n, p)
+        if op in ("map", "map_err", "inspect", "inspect_err") and tag(recv) == "vsum" and len(recv) > 3 and recv[3][0] == "from":
+            # the receiver was joined from variant constructions and keeps its variant: so does the result
+            return ("vsum", adt, tuple(sorted(outv.items())), recv[3])
         if op in ("map", "map_err", "inspect", "inspect_err") and tag(recv) not in ("variant", "vsum"):
             # the result has the receiver's variant, case by case: remember the receiver, so that `return r.map(f)` can be read as one return per variant
             return ("vsum", adt, tuple(sorted(outv.items())), ("by", recv))
